@@ -3,8 +3,9 @@ instance and object table) and C17 (closing a server ends its clients; departed 
 one-shot serves once). Each compiles and stays silent under the repository's own server tests
 (tests/test_threaded_server.py, tests/test_oneshot_server.py, tests/test_custom_service.py).
 edits = [(file, old, new)] with old occurring exactly once. The ThreadPoolServer mutants marked (*) are written
-against the text of the two thread-pool fixes (close() drops the remaining connections; _drop_connection(fd, conn)
-leaves a recycled descriptor number alone) and do not apply to a tree without them."""
+against the text of the three thread-pool fixes (close() drops the remaining connections; _drop_connection(fd, conn)
+leaves a recycled descriptor number alone; a rejected client's socket is discarded from server.clients) and do not
+apply to a tree without them."""
 P = "rpyc/core/protocol.py"
 S = "rpyc/utils/server.py"
 
@@ -47,6 +48,9 @@ MUTANTS = [
           "                conn = self.fd_to_conn.get(fd)\n            elif self.fd_to_conn.get(fd) is conn:\n                pass")),
     M("c17-revert-pool-close", "C17", "(*) ThreadPoolServer.close() leaves the connections in fd_to_conn alone again",
       (S, "        for fd in list(self.fd_to_conn):\n            self._drop_connection(fd)\n", "        pass\n")),
+    M("c17-revert-pool-rejected-entry", "C17", "(*) thread pool: the socket of a client that failed authentication stays in server.clients",
+      (S, "            self.logger.exception(err_msg)\n            sock.close()\n            self.clients.discard(sock)",
+          "            self.logger.exception(err_msg)\n            sock.close()")),
     M("c17-threaded-keeps-dup", "C17", "ThreadedServer keeps a duplicate descriptor of every accepted socket in a list",
       (S, "        spawn(self._authenticate_and_serve_client, sock)",
           '        self.__dict__.setdefault("_accepted", []).append(sock.dup())\n        spawn(self._authenticate_and_serve_client, sock)')),
